@@ -1,6 +1,7 @@
 import PikaVerif.Core.Basic
 import PikaVerif.Core.Sum
 import PikaVerif.Model.Sem
+import PikaVerif.Model.Rw
 import PikaVerif.Lemmas.Sem
 import PikaVerif.Lemmas.Sem2
 import PikaVerif.Props.C08
